@@ -22,6 +22,16 @@ condition the interpreter cannot decide forks the run (both outcomes are
 followed and have to satisfy the obligations), so an *additional* condition on
 an effect is found as a path on which the effect is missing.
 
+The body of a deferred callable (the expiry callback: lambda, nested def,
+partial, method / classmethod / staticmethod of the class, with the table and
+other arguments handed on through the timer) is run in "late" mode: values
+computed when the timer was armed keep their meaning, but whatever the body
+reads from the message *object* is read when it runs -- a key built there is
+LATEKEY, not KEY.
+
+WireFlow (end of the file) walks back from the transmission primitive to the
+call sites a message comes from.
+
 Nothing of the analysed repository is imported or executed.
 """
 
@@ -37,10 +47,13 @@ ABSENT = ("absent",)
 NONE = ("none",)
 REPLY = ("reply",)  # the object stored under the key when the function is entered
 KEY = ("key",)
+# the identifier computed from the message object *when a deferred callable runs* (see EntrySim._call_def)
+LATEKEY = ("latekey",)
 TABLE = ("table",)
 UNKNOWN = ("unknown",)
 
 MTYPES = ("CON", "NON", "ACK", "RST")
+_LATE = "__when_called"
 
 _PURE_CALLS = {"len", "isinstance", "str", "repr", "bool", "id", "type", "int", "tuple", "hash", "getattr", "hasattr"}
 _PARTIAL = {"functools.partial", "partial"}
@@ -113,6 +126,7 @@ class EntrySim:
         self.callback_methods = set()  # short names of methods found to be the expiry callback
         self.uninterpreted = []  # reasons why a callback could not be interpreted
         self._rebound = {}
+        self.late = False  # True inside the body of a deferred callable (the expiry callback)
         self.message_truthy = self._message_truthy()
         self.message_identity_eq = self._message_identity_eq()
 
@@ -186,6 +200,8 @@ class EntrySim:
                         return copy.deepcopy(v[1])
                     if k == "param":
                         return ast.Name(id=v[1], ctx=ast.Load())
+                    if k == "lateparam":
+                        return ast.Name(id=v[1] + _LATE, ctx=ast.Load())
                     if k == "table":
                         return ast.parse(sim.field, mode="eval").body
                     if k == "key":
@@ -206,6 +222,21 @@ class EntrySim:
             and len(ce.elts) == len(self.key_parts)
             and all(chain(x) == "%s.%s" % (self.mparam, p) for x, p in zip(ce.elts, self.key_parts))
         )
+
+    def _is_late_key_tuple(self, ce):
+        """(message.remote, message.mid) with at least one component read from the message object inside a
+        deferred callable: the identifier the message has when the callable runs, not the one it had when the
+        callable was handed to the timer."""
+        if not (isinstance(ce, ast.Tuple) and len(ce.elts) == len(self.key_parts)):
+            return False
+        late = 0
+        for x, p in zip(ce.elts, self.key_parts):
+            c = chain(x)
+            if c == "%s%s.%s" % (self.mparam, _LATE, p):
+                late += 1
+            elif c != "%s.%s" % (self.mparam, p):
+                return False
+        return late > 0
 
     # -- values ----------------------------------------------------------------------
     def ev(self, e, st):
@@ -245,6 +276,8 @@ class EntrySim:
             ce = self.canon(e, st)
             if self._is_key_tuple(ce):
                 return KEY
+            if self._is_late_key_tuple(ce):
+                return LATEKEY
             return ("expr", ce)
         if isinstance(e, ast.Subscript):
             base = self.ev(e.value, st)
@@ -289,7 +322,7 @@ class EntrySim:
         k = self.ev(kexpr, st)
         if k == KEY:
             return True
-        st.trace.append(("foreignkey", node))
+        st.trace.append(("latekey" if k == LATEKEY else "foreignkey", node))
         return False
 
     def _getitem(self, kexpr, node, st):
@@ -321,7 +354,7 @@ class EntrySim:
     def eq(self, a, b):
         """Is a the same value as b?  True / False / None (unknown)."""
         ka, kb = _kind(a), _kind(b)
-        soft = {"expr", "unknown", "table", "lambda", "func"}
+        soft = {"expr", "unknown", "table", "lambda", "func", "lateparam", "latekey"}
         if ka in soft or kb in soft:
             return None
         if ka == kb:
@@ -419,7 +452,7 @@ class EntrySim:
                 is_tab = rv == TABLE
             if is_tab:
                 if lv != KEY:
-                    st.trace.append(("foreignkey", node))
+                    st.trace.append(("latekey" if lv == LATEKEY else "foreignkey", node))
                     return None, rv
                 res = st.entry != ABSENT
                 return (res if isinstance(op, ast.In) else not res), rv
@@ -555,14 +588,44 @@ class EntrySim:
                         return [("remove", cb, len(extra) == 2)]
                     return [("foreignkey", cb)]
                 return [("tableop", cb.attr, cb)]
-            if isinstance(cb.value, ast.Name) and cb.value.id == "self" and self.fi.cls is not None:
+            recv = self._receiver(cb.value)
+            if recv is not None and self.fi.cls is not None:
                 callee = self.prog.lookup_method(self.fi.cls.qn, cb.attr)
                 if callee is None or isinstance(callee.node, ast.AsyncFunctionDef):
                     return None
-                r = self._call_def(callee.node, {}, [("expr", ast.Name(id="self", ctx=ast.Load()))] + list(extra), st, closure=False)
+                decos = {(chain(d) or "").split(".")[-1] for d in callee.node.decorator_list}
+                if decos - {"staticmethod", "classmethod"}:
+                    self.uninterpreted.append("the callback %s is decorated" % cb.attr)
+                    return None
+                # what the first parameter is bound to: nothing (static), the class, the instance
+                if "staticmethod" in decos:
+                    implicit = []
+                elif "classmethod" in decos:
+                    implicit = [("expr", ast.Name(id="type(self)", ctx=ast.Load()))]
+                elif recv == "self":
+                    implicit = [("expr", ast.Name(id="self", ctx=ast.Load()))]
+                else:
+                    implicit = []  # Class.method handed on unbound: the instance is among the arguments
+                r = self._call_def(callee.node, {}, implicit + list(extra), st, closure=False)
                 if r is not None:
                     self.callback_methods.add(callee.short)
                 return r
+        return None
+
+    def _receiver(self, e):
+        """"self" / "class" when e denotes the instance / its class (self, cls, type(self), self.__class__, the
+        class by name), else None."""
+        if isinstance(e, ast.Name):
+            if e.id == "self":
+                return "self"
+            if e.id == "cls" or (self.fi.cls is not None and e.id == self.fi.cls.node.name):
+                return "class"
+            return None
+        if isinstance(e, ast.Attribute) and e.attr == "__class__" and isinstance(e.value, ast.Name) and e.value.id == "self":
+            return "class"
+        if isinstance(e, ast.Call) and chain(e.func) == "type" and len(e.args) == 1 and not e.keywords \
+                and isinstance(e.args[0], ast.Name) and e.args[0].id == "self":
+            return "class"
         return None
 
     def _call_def(self, node, closure_env, args, st, closure):
@@ -574,6 +637,14 @@ class EntrySim:
         if len(args) > len(names):
             return None
         env = {}
+
+        def later(v):
+            # A *value* computed when the callable was handed to the timer (a key tuple, message.mid) stays what it
+            # was.  A reference to the message *object* does not pin its fields: Message is mutable (mid and remote
+            # are assigned in place elsewhere in the package), so whatever the body reads from it is read when the
+            # callable runs.
+            return ("lateparam", v[1]) if _kind(v) == "param" else v
+
         if closure:
             # free variables are read when the callback fires: only names that are never re-bound
             # have the value they had when the timer was armed
@@ -583,15 +654,17 @@ class EntrySim:
                     if not self._bound_once(self.fn, k):
                         self.uninterpreted.append("the callback reads %s, which is bound more than once" % k)
                         return None
-                    env[k] = v
+                    env[k] = later(v)
+            if self.mparam not in names and self.mparam not in env and not self.late:
+                env[self.mparam] = ("lateparam", self.mparam)
         defaults = a.defaults
         first_default = len(names) - len(defaults)
         for i, n in enumerate(names):
             if i < len(args):
-                env[n] = args[i]
+                env[n] = later(args[i])
             elif i >= first_default:
                 dst = State(st.entry, st.mtype, dict(closure_env) if closure else {})
-                env[n] = self.ev(defaults[i - first_default], dst)
+                env[n] = later(self.ev(defaults[i - first_default], dst))
             else:
                 return None
         sub = State(REPLY, st.mtype, env)
@@ -600,6 +673,7 @@ class EntrySim:
         inner.__dict__.update(self.__dict__)
         inner.fn = node
         inner.mparam = self.mparam
+        inner.late = True
         try:
             outs = inner.exec_block(body, sub)
         except (SimRaise, AnalysisError):
@@ -811,9 +885,11 @@ class EntrySim:
 
 
 def table_uses(fn, field_chain, resolve):
-    """-> (keyed, other): keyed = [(node, key expr, kind)] for every access that addresses
+    """-> (keyed, other, handed): keyed = [(node, key expr, kind)] for every access that addresses
     one entry (kind in lookup / insert / remove), other = [node] for references that
-    are neither keyed accesses nor harmless (log arguments, len()).
+    are neither keyed accesses nor harmless (log arguments, len()), handed = [call] where the
+    table itself is an argument of a deferred callable (`call_later(t, f, table, ...)`,
+    `partial(f, table, ...)`): what f does with it is for the interpreter of the callable to say.
     `resolve(expr)` follows single-assignment locals (aliases of the table)."""
 
     def is_tab(e):
@@ -825,6 +901,7 @@ def table_uses(fn, field_chain, resolve):
             parent[id(ch)] = p
     keyed = []
     other = []
+    handed = []
     for n in ast.walk(fn):
         if not (isinstance(n, (ast.Attribute, ast.Name)) and isinstance(getattr(n, "ctx", None), ast.Load) and is_tab(n)):
             continue
@@ -871,6 +948,12 @@ def table_uses(fn, field_chain, resolve):
                     continue
             other.append(gp if gp is not None else p)
             continue
+        if isinstance(p, ast.Call) and not p.keywords and any(x is n for x in p.args) and not any(isinstance(x, ast.Starred) for x in p.args):
+            i = [k for k, x in enumerate(p.args) if x is n][0]
+            timer = isinstance(p.func, ast.Attribute) and p.func.attr in ("call_later", "call_at") and i >= 2
+            if timer or ((call_name(p) or "") in _PARTIAL and i >= 1):
+                handed.append(p)
+                continue
         # harmless: len(table) / the table as argument of a log call
         q = p
         harmless = False
@@ -881,7 +964,7 @@ def table_uses(fn, field_chain, resolve):
             q = parent.get(id(q))
         if not harmless:
             other.append(p if p is not None else n)
-    return keyed, other
+    return keyed, other, handed
 
 
 # ---------------------------------------------------------------------------
@@ -1017,3 +1100,306 @@ def table_writes(fnode, field):
         if isinstance(n, ast.Attribute) and n.attr in _MUTATORS and id(n) not in called and isinstance(n.ctx, ast.Load) and is_tab(n.value):
             out.append(("ref:" + n.attr, n))
     return out
+
+
+# ---------------------------------------------------------------------------
+# which messages reach the wire without passing the recording sender?
+
+
+_SCHEDULERS = {"call_later": 1, "call_at": 1, "call_soon": 0, "call_soon_threadsafe": 0}
+
+
+class WireFlow:
+    """Backward flow from the wire primitive (`<x>.message_interface.send(m)`) to the places where the message
+    `m` comes from.
+
+    A function that hands one of its own *parameters* to the wire (or to a function that does) is a conduit: the
+    question "which message is this?" is passed on to every reference to that function in the package, with the
+    corresponding argument (positional, keyword, default-argument binding of a nested def / lambda, arguments
+    given to call_later / call_soon / functools.partial together with the method value).  The walk ends
+
+      * in the recording sender (`arrivals`: the site, whether the chain from there to the wire is synchronous or
+        goes through a deferred callable, and the argument expression),
+      * at a message that is provably not an acknowledgement (`findings`, ok),
+      * or at a message nothing is known about / that is an ACK (`findings`, not ok).
+
+    Nothing is matched by name except the wire primitive itself and the functions the walk reaches."""
+
+    def __init__(self, prog, recorder_sender, resolve, binding, judged_elsewhere=(), wire_attr="message_interface", wire_method="send"):
+        self.prog = prog
+        self.rs = recorder_sender
+        self.resolve = resolve  # (fnode, expr) -> expr through single-assignment locals
+        self.binding = binding  # (fi, use, name) -> ("default", expr) | ("param", None) | None
+        self.skip = set(judged_elsewhere)  # qualified names of functions whose sends another clause decides
+        self.wire_attr = wire_attr
+        self.wire_method = wire_method
+        self.tops = [f for f in prog.funcs.values() if f.parent is None]
+        self._parents = {}
+        self.findings = []  # (fi, node, ok, detail)
+        self.arrivals = []  # (node, deferred, arg expr)
+        self.visited = set()
+        self.notes = []
+
+    # -- structure -------------------------------------------------------------------
+    def parents(self, f):
+        m = self._parents.get(f.qn)
+        if m is None:
+            m = {}
+            for p in ast.walk(f.node):
+                for ch in ast.iter_child_nodes(p):
+                    m[id(ch)] = p
+            self._parents[f.qn] = m
+        return m
+
+    def nested_in(self, f, node):
+        """Is node inside a nested def / lambda of the top-level function f?"""
+        par = self.parents(f)
+        q = par.get(id(node))
+        while q is not None and q is not f.node:
+            if isinstance(q, (ast.Lambda, ast.FunctionDef, ast.AsyncFunctionDef)):
+                return True
+            q = par.get(id(q))
+        return False
+
+    def wire_refs(self):
+        """[(f, Attribute node)]: every reference to <...>.message_interface.send in the package"""
+        out = []
+        for f in self.tops:
+            for n in ast.walk(f.node):
+                if isinstance(n, ast.Attribute) and n.attr == self.wire_method and isinstance(n.ctx, ast.Load):
+                    r = n.value
+                    if isinstance(r, ast.Name):
+                        r = self.resolve(f.node, r)
+                    c = chain(r) or ""
+                    if c == self.wire_attr or c.endswith("." + self.wire_attr):
+                        out.append((f, n))
+        return out
+
+    def refs_to(self, g):
+        """[(f, node)]: references to function g by name in the package (methods: any `<x>.name`, except `self.name`
+        inside a class that is unrelated to g's)"""
+        out = []
+        for f in self.tops:
+            for n in ast.walk(f.node):
+                if isinstance(n, ast.Attribute) and n.attr == g.name and isinstance(n.ctx, ast.Load):
+                    if g.cls is None:
+                        continue
+                    if isinstance(n.value, ast.Name) and n.value.id in ("self", "cls") and f.cls is not None:
+                        if not (self.prog.is_subclass(f.cls.qn, g.cls.qn) or self.prog.is_subclass(g.cls.qn, f.cls.qn)):
+                            continue
+                    out.append((f, n))
+                elif isinstance(n, ast.Name) and n.id == g.name and isinstance(n.ctx, ast.Load) and g.cls is None and f.module is g.module:
+                    out.append((f, n))
+        return out
+
+    def uses(self, f, ref, bound):
+        """How is the callable denoted by `ref` (inside f) used?  -> [(pin node, argument lookup, deferred)] or None.
+        `bound`: ref is a bound method / plain function (its positional arguments are the parameters after self)."""
+        par = self.parents(f)
+        p = par.get(id(ref))
+        nested = self.nested_in(f, ref)
+
+        def lookup(pos, kws):
+            def get(i, name):
+                if any(isinstance(a, ast.Starred) for a in pos[: i + 1]):
+                    return None
+                if i < len(pos):
+                    return pos[i]
+                for kw in kws:
+                    if kw.arg == name:
+                        return kw.value
+                return None
+            return get
+
+        if isinstance(p, ast.Call) and p.func is ref:
+            return [(p, lookup(p.args, p.keywords), nested)]
+        if isinstance(p, ast.Call) and any(a is ref for a in p.args) and not p.keywords:
+            i = [k for k, a in enumerate(p.args) if a is ref][0]
+            name = call_name(p) or ""
+            if isinstance(p.func, ast.Attribute) and _SCHEDULERS.get(p.func.attr) == i:
+                return [(p, lookup(p.args[i + 1:], []), True)]
+            if name in _PARTIAL and i == 0:
+                # the arguments given here are the leading ones; whoever calls the partial object does so later
+                return [(p, lookup(p.args[1:], []), True)]
+            return None
+        if isinstance(p, ast.Assign) and p.value is ref and len(p.targets) == 1 and isinstance(p.targets[0], ast.Name):
+            # a local that names the callable: its uses are the uses
+            t = p.targets[0].id
+            scope = f.node
+            if len(writes_to_name(scope, t)) != 1:
+                return None
+            out = []
+            for n in ast.walk(scope):
+                if isinstance(n, ast.Name) and n.id == t and isinstance(n.ctx, ast.Load):
+                    u = self.uses(f, n, bound)
+                    if u is None:
+                        return None
+                    out.extend(u)
+            return out
+        return None
+
+    # -- what is known about the type of a message --------------------------------------
+    def _ctor_type(self, e):
+        """Message(..., _mtype=X) -> (True, "X" | None); not a Message construction -> (False, None)"""
+        if not (isinstance(e, ast.Call) and (call_name(e) or "").split(".")[-1] == "Message"):
+            return False, None
+        for kw in e.keywords:
+            if kw.arg in ("_mtype", "mtype"):
+                c = chain(kw.value)
+                return True, (c.split(".")[-1] if c else "?")
+            if kw.arg is None:
+                return True, "?"
+        return True, None
+
+    def not_an_ack(self, f, site, arg):
+        """Is the message denoted by `arg` at `site` provably of a type other than ACK?  (Only an ACK can be `the
+        acknowledgement already sent` for a request: CON / NON messages carry message IDs of our own, a RST answers
+        what was not accepted as a request.)  Decided from the construction of the message in f (constructor keyword
+        and attribute assignment are the same fact) or from the conditions on `<arg>.mtype` that dominate the site."""
+        from ..cfg import cfg_of
+        from ..rulekit import mtype_values
+
+        nonack = {"CON", "NON", "RST"}
+        is_ctor, t = self._ctor_type(arg)
+        if is_ctor:
+            return t in nonack
+        if not isinstance(arg, ast.Name):
+            return False
+        x = arg.id
+        stores = []
+        for n in ast.walk(f.node):
+            if isinstance(n, ast.Assign):
+                for tg in n.targets:
+                    if isinstance(tg, ast.Attribute) and tg.attr in ("mtype", "_mtype") and isinstance(tg.value, ast.Name) and tg.value.id == x:
+                        c = chain(n.value)
+                        stores.append(c.split(".")[-1] if c else "?")
+            elif isinstance(n, (ast.AugAssign, ast.AnnAssign, ast.Delete, ast.NamedExpr)):
+                for sub in ast.walk(n):
+                    if isinstance(sub, ast.Attribute) and isinstance(sub.ctx, (ast.Store, ast.Del)) and sub.attr in ("mtype", "_mtype") \
+                            and isinstance(sub.value, ast.Name) and sub.value.id == x:
+                        stores.append("?")
+        a = f.node.args
+        is_param = any(p.arg == x for p in a.posonlyargs + a.args + a.kwonlyargs)
+        writes = writes_to_name(f.node, x)
+        if not is_param and len(writes) == 1:
+            v = None
+            for n in walk_no_nested(f.node):
+                if isinstance(n, ast.Assign) and len(n.targets) == 1 and isinstance(n.targets[0], ast.Name) and n.targets[0].id == x:
+                    v = n.value
+            is_ctor, t = self._ctor_type(v) if v is not None else (False, None)
+            if is_ctor:
+                types = ([t] if t is not None else []) + stores
+                return bool(types) and all(y in nonack for y in types)
+        if self.nested_in(f, site):
+            return False
+        cfg = cfg_of(f)
+        nids = cfg.locate(site)
+        if not nids:
+            return False
+        # A condition on x.mtype says something about the message at the site only if neither x nor x.mtype is
+        # assigned on the way from the condition to the site.
+        changes = set()
+        for n in ast.walk(f.node):
+            hit = False
+            if isinstance(n, ast.Attribute) and isinstance(n.ctx, (ast.Store, ast.Del)) and n.attr in ("mtype", "_mtype") \
+                    and isinstance(n.value, ast.Name) and n.value.id == x:
+                hit = True
+            elif isinstance(n, ast.Name) and n.id == x and isinstance(n.ctx, (ast.Store, ast.Del)):
+                hit = True
+            if hit:
+                if self.nested_in(f, n):
+                    return False
+                loc = cfg.locate(n)
+                if not loc:
+                    return False
+                changes.update(loc)
+        for nid in nids:
+            guards = []
+            for e, pol, g in cfg.guards(nid):
+                # (a way that comes by the test again re-establishes the condition: loops)
+                tests = tuple(t for t, _l in cfg.pred[g])
+                after = cfg.reach([g], avoid=tests)
+                if any(c in after and nid in cfg.reach([c], avoid=tests, include_src=True) for c in changes):
+                    continue
+                guards.append((e, pol))
+            alive, _others = mtype_values(guards, "%s.mtype" % x, MTYPES)
+            if "ACK" in alive:
+                return False
+        return True
+
+    # -- the walk ------------------------------------------------------------------------------
+    def judge(self, f, pin, arg, deferred, via):
+        if arg is None:
+            self.findings.append((f, pin, False, "%s: the message handed on here cannot be identified" % via))
+            return
+        if isinstance(arg, ast.Name) and self.nested_in(f, pin):
+            b = self.binding(f, pin, arg.id)
+            if b is not None:
+                if b[0] == "param":
+                    self.findings.append((f, pin, False, "%s: the message is a parameter of a nested callable, bound by whoever calls it" % via))
+                    return
+                arg = b[1]
+        # follow locals that merely name another local / parameter (what a name is bound to otherwise -- a
+        # construction, a call -- is looked at by not_an_ack together with the attribute assignments on that name)
+        for _i in range(4):
+            if not isinstance(arg, ast.Name):
+                break
+            nxt = self.resolve(f.node, arg, 1)
+            if nxt is arg or not isinstance(nxt, ast.Name):
+                break
+            arg = nxt
+        if f.qn == self.rs.qn:
+            self.arrivals.append((pin, deferred, arg))
+            return
+        if f.qn in self.skip:
+            return
+        if self.not_an_ack(f, pin, arg):
+            self.findings.append((f, pin, True, "%s: `%s` is not an ACK" % (via, stmt_text(arg, 40))))
+            return
+        a = f.node.args
+        names = [p.arg for p in a.posonlyargs + a.args]
+        if isinstance(arg, ast.Name) and arg.id in names + [p.arg for p in a.kwonlyargs] and not writes_to_name(f.node, arg.id) and not a.vararg:
+            k = (f.qn, arg.id)
+            if k in self.visited:
+                return
+            self.visited.add(k)
+            decos = {(chain(d) or "").split(".")[-1] for d in f.node.decorator_list}
+            if decos - {"staticmethod", "classmethod"}:
+                self.findings.append((f, pin, False, "%s: %s is decorated; its callers cannot be followed" % (via, f.name)))
+                return
+            skip_first = 1 if (f.cls is not None and "staticmethod" not in decos) else 0
+            idx = names.index(arg.id) - skip_first if arg.id in names else None
+            refs = self.refs_to(f)
+            if not refs:
+                self.notes.append("%s hands its parameter %s to the wire but is referenced nowhere in the package" % (f.short, arg.id))
+                return
+            for g, ref in refs:
+                u = self.uses(g, ref, True)
+                if u is None:
+                    self.findings.append((g, ref, False, "%s: %s is referred to in a way that cannot be followed" % (via, f.name)))
+                    continue
+                for pin2, get, d2 in u:
+                    arg2 = get(idx, arg.id) if idx is not None and idx >= 0 else get(10 ** 6, arg.id)
+                    if arg2 is None:
+                        # not given: the parameter's default
+                        dflt = None
+                        if arg.id in names:
+                            j = names.index(arg.id) - (len(names) - len(a.defaults))
+                            dflt = a.defaults[j] if j >= 0 else None
+                        if dflt is not None:
+                            self.findings.append((g, pin2, False, "%s: %s sends the default value of %s" % (via, f.name, arg.id)))
+                            continue
+                    self.judge(g, pin2, arg2, deferred or d2, "%s <- %s" % (via, f.name))
+            return
+        self.findings.append((f, pin, False, "%s: `%s` reaches the wire without being recorded as the possible reply to a duplicate, and may be an acknowledgement" % (via, stmt_text(arg, 40))))
+
+    def run(self):
+        wires = self.wire_refs()
+        for f, ref in wires:
+            u = self.uses(f, ref, True)
+            if u is None:
+                self.findings.append((f, ref, False, "the transmission primitive is referred to in a way that cannot be followed"))
+                continue
+            for pin, get, d in u:
+                self.judge(f, pin, get(0, "message"), d, "wire")
+        return wires
